@@ -2,9 +2,10 @@
 
 proof:          lean/BMV/Props/C05.lean about BMV.Basm.assemble (model of the pass pipeline of
                 pkg/basm for the C05 subset) and BMV.Basm.refStep (direct interpretation of the
-                source text): label table after the entry-line removal, opcode numbering, matcher
-                effect, lock-step simulation between the reference interpreter and BMV.Isa.step
-                on the assembled ROM.
+                source text): assemble_correct : C05_full (per processor, every environment, every
+                run length, blocking IO included, one initial stutter for the jump to the entry),
+                label table after the entry-line removal, opcode numbering, matcher effect,
+                network composition.
 tie:            (1) EXACT structural comparison: harness/cmd/c05 runs the real basm package
                 in-process (ParseAssemblyString, RunAssembler, Assembler2BondMachine,
                 GetBondMachine) on generated sources and dumps the machine; oracle-c05 parses the
@@ -250,8 +251,9 @@ def run(rep):
     rep.assumptions += [
         "basm runs with -disable-dynamical-matching: under the default configuration `mov reg, number` matches rset and the dynamic "
         "rsets5/6/7 opcodes and the tool answers 'unable to choose' (or, with -chooser-min-word-size, picks an opcode outside the layout table)",
-        "the semantic theorem and tie are per processor with its ports driven by an arbitrary environment (this covers blocking and "
-        "non-blocking IO); the composition of several processors through bonds is C02/C04's matter",
+        "the semantic theorem is per processor with its ports driven by an arbitrary environment (blocking and non-blocking IO); "
+        "the network reference composes them (network_component / network_correct) but that bondmachine.VM.Step moves data as the "
+        "network reference says is only compared per tick (whole-machine tie), not proved: C02/C04's matter",
         "numeric jump targets have no source-level meaning in the reference interpreter (it stops there: 'X undefined')",
         "sections shorter than 2^63 lines (Needed_bits arithmetic)",
     ]
